@@ -79,6 +79,8 @@ def analyse_simple_form(engine):
                 and n.func.attr in ('_push', '_pop') and \
                 isinstance(n.func.value, ast.Name):
             md_param = n.func.value.id
+    if md_param is None and len(params) > 2:
+        md_param = params[2]      # (blocks, rendered, md, encoding)
     if md_param is None:
         raise AnalysisError('render_blocks_: namespace parameter not found')
     dom = TaintDomain(engine, fi, sink_append=out_param)
@@ -151,8 +153,12 @@ def rule_sinks(model):
                 if names:
                     msg += (' (method formats returning raw text: '
                             + ', '.join(names[:12]) + ')')
-                r1.finding(owhere, ocons, msg, node=node, ctx=f,
-                           path=st.trace, extra={'sink': f.where})
+                # keyed by module + operation (not by function) so that
+                # extracting a helper does not rename a known finding
+                r1.finding(owhere.split(':')[0], ocons,
+                           f'in {owhere}: ' + msg, node=node, ctx=f,
+                           path=st.trace, extra={'sink': f.where,
+                                                 'origin': owhere})
     r1.stats = {'sink_states': n_sink_states,
                 'summaries': eng.stats['summaries'],
                 'statements_interpreted': eng.stats['states']}
